@@ -82,6 +82,19 @@ def _attrs():
     return st.lists(st.tuples(nm, val).map(list), max_size=3).map(lambda a: gen.normalise_attrs(a)[0])
 
 
+def follow_up_op():
+    """mutations of existing records through every public mutator (also used by C04's mutate-after-compare mode)"""
+    return st.one_of(
+        st.builds(lambda i, a, f: ["attrs", i, a, f], st.integers(0, 30), _attrs(), st.sampled_from(["dict", "pairs"])),
+        st.builds(lambda i, k, n, t, form: ["readd", i, k, False, n, t, form], st.integers(0, 30), st.integers(0, 4),
+                  _name(), gen.datetime_iso(), st.sampled_from(["dict", "pairs"])),
+        st.builds(lambda i, s, e, a1, a2: ["set_time", i, s, e, a1, a2], st.integers(0, 30),
+                  st.one_of(st.none(), gen.datetime_iso()), st.one_of(st.none(), gen.datetime_iso()),
+                  st.sampled_from(["dt", "str"]), st.sampled_from(["dt", "str"])),
+        st.builds(lambda i, v: ["asserted_type", i, v], st.integers(0, 30), gen.value("json", ["qn", "str", "int"])),
+    )
+
+
 def strategy(tier):
     op = st.one_of(
         _rec(), _rec(), _rec(),
